@@ -440,7 +440,9 @@ func (x *exec) step(st *State, fr *Frame, b *ssa.BasicBlock, ins ssa.Instruction
 	case *ssa.MakeSlice:
 		ln := asInt64(e, x.val(st, fr, ins.Len))
 		cp := asInt64(e, x.val(st, fr, ins.Cap))
-		x.safe(st, ins, "makeslice", smt.And(smt.BVCmp("bvsle", zero64, ln), smt.BVCmp("bvsle", ln, cp), smt.BVCmp("bvsle", cp, smt.BVLit(1<<62, 64))))
+		x.safe(st, ins, "makeslice", smt.And(smt.BVCmp("bvsle", zero64, ln), smt.BVCmp("bvsle", ln, cp)))
+		// running out of memory is not modelled: an allocation of more than 2^56 elements does not return
+		st.assume(smt.BVCmp("bvsle", cp, smt.BVLit(1<<56, 64)))
 		r := e.newRef(st, "mk")
 		x.zeroMem(st, r, types.Unalias(ins.Type()).Underlying().(*types.Slice).Elem())
 		st.regs[ins] = Value{T: ins.Type(), L: []smt.Term{r, zero64, ln, cp}}
